@@ -204,7 +204,7 @@ fn check(l: &mut Local<'_>, src: &Beatmap, target: u8, m: &ModSpec, dsets: &[Dif
 
 fn main() {
     let ctx = Ctx::from_env("C07");
-    ctx.rule("case = (native mode, grammar map); per case: every target mode x mods menu (key mods 1K-9K, 10K, Random seeds, HoldOff, Invert, HR, ...) x 3 Difficulty settings; oracle = the three conversion entry points agree (maps or errors), failing convert_mut leaves the map untouched, same-mode = identity, only un-converted osu! converts, result marked; calculate_for_mode / strains_for_mode / GradualDifficulty::new_with_mode / GradualPerformance::new_with_mode / Performance::try_mode / mode_or_ignore on the source equal the call on the explicitly converted map; already-converted maps as inputs too; non-trivial = stars > 0");
+    ctx.rule("case = (native mode, grammar map); per case: every target mode x mods menu (key mods 1K-9K, 10K, Random seeds, HoldOff, Invert, HR, ...) x 3 Difficulty settings; oracle = the three conversion entry points agree (maps or errors), failing convert_mut leaves the map untouched, same-mode = identity, only un-converted osu! converts, result marked; calculate_for_mode / strains_for_mode / GradualDifficulty::new_with_mode / GradualPerformance::new_with_mode / Performance::try_mode / mode_or_ignore on the source equal the call on the explicitly converted map; five builder configurations (priority, accuracy, misses, combo, counts, passed_objects) applied before try_mode / mode_or_ignore must give what they give on the converted map; already-converted maps as inputs too; non-trivial = stars > 0");
 
     // thorough keeps N <= 3 but uses the wide alphabet and the rich mods menu (N <= 4 does not finish inside the cap)
     let n_max = 3;
